@@ -63,8 +63,7 @@ class TrialRecorder(Monitor):
         self.records = []
 
     def on_trial(self, w, name, verdict, pre, post):
-        self.records.append((name, repr(verdict), post["positions"].tobytes(), post["cell"], post["n"],
-                             tuple((p, l.tobytes()) for p, l in sorted(post["labels"].items())), post["N"]))
+        self.records.append(trial_record(name, verdict, post))
 
     def on_exception(self, w, info):
         self.records.append(("exception", info["type"], info["where"]))
@@ -72,6 +71,22 @@ class TrialRecorder(Monitor):
 
 
 FIELDS = ("move", "verdict", "positions", "cell", "natoms", "labels", "particle_count")
+
+
+def trial_record(name, verdict, post):
+    return (name, repr(verdict), np.array(post["positions"], copy=True), np.array(post["cellarr"], copy=True), post["n"],
+            tuple((p, l.tobytes()) for p, l in sorted(post["labels"].items())), post["N"])
+
+
+def same_field(a, b) -> bool:
+    """Move, verdict, counts and labels must be identical; positions and cell may differ at rounding level: the twin
+    evaluates every energy and force from scratch, the original may hold calculator results cached for positions one
+    unit in the last place away (ASE's cache comparison has a 1e-15 tolerance; a rotation of a single atom about
+    itself is such a change) - a real leak of a discarded trial is of the size of a move, not of 1e-14."""
+    if isinstance(a, np.ndarray) or isinstance(b, np.ndarray):
+        a, b = np.asarray(a), np.asarray(b)
+        return a.shape == b.shape and bool(np.allclose(a, b, rtol=0, atol=1e-9 * max(1.0, float(np.max(np.abs(a), initial=0.0)))))
+    return a == b
 
 
 def twin_scenario(w: World, nsteps: int) -> dict:
@@ -142,8 +157,7 @@ class C03Monitor(Monitor):
 
     def on_trial(self, w, name, verdict, pre, post):
         # feed running twins
-        rec = (name, repr(verdict), post["positions"].tobytes(), post["cell"], post["n"],
-               tuple((p, l.tobytes()) for p, l in sorted(post["labels"].items())), post["N"])
+        rec = trial_record(name, verdict, post)
         for tw in self.twins:
             if tw["done"]:
                 continue
@@ -153,9 +167,9 @@ class C03Monitor(Monitor):
                 continue
             exp = tw["records"][i]
             tw["cursor"] += 1
-            if exp != rec:
+            if len(exp) != len(rec) or not all(same_field(x, y) for x, y in zip(exp, rec)):
                 tw["done"] = True
-                field = next((FIELDS[j] for j in range(min(len(exp), len(rec))) if exp[j] != rec[j]), "length")
+                field = next((FIELDS[j] for j in range(min(len(exp), len(rec))) if not same_field(exp[j], rec[j])), "length")
                 if exp[0] == "exception":
                     field = "twin_raised"
                 self.violate(w, "leak_into_next_move", f"driver={w.sc['driver']}|after={tw['after']}|first_diff={field}",
